@@ -9,13 +9,13 @@ CONSTANTS
   Discipline = "full"
   DotAll = TRUE
   FindFirst = FALSE
-  Emit = "lts"
-  StaleCache = FALSE
-  KeyBeforeTranslate = FALSE
-  Pool <- MCPool
-  QNames <- MCQNames
-SPECIFICATION CSpec
-INVARIANT CacheCoherent
-PROPERTY SameResult
-VIEW CView
+  Emit = "none"
+  MemoKeyJoined = FALSE
+  JoinSep = 10
+  MPool <- MCMPoolSmall
+  MNames <- MCMNames
+SPECIFICATION MSpec
+INVARIANT OutFaithful
+PROPERTY SameAnswer
+VIEW MView
 CHECK_DEADLOCK FALSE
